@@ -1182,6 +1182,7 @@ def check_nonint(ctx: Ctx, options: tuple[str, ...]) -> None:
 
 def check_list_spacing_confinement(ctx: Ctx) -> None:
     """list_spacing can change nothing but the blank lines between items."""
+    from .common import callers_index
     repo, prog = ctx.repo, ctx.prog
     rm = get_model(ctx)
     cls = repo.cls("flowmark.formats.flowmark_markdown:MarkdownNormalizer")
@@ -1203,6 +1204,13 @@ def check_list_spacing_confinement(ctx: Ctx) -> None:
             if isinstance(n, ast.Attribute) and n.attr == attr and isinstance(n.ctx, ast.Load):
                 readers.append(m)
     own = exclusive_helpers(prog, lm)
+
+    def _dead_private(m_) -> bool:
+        """a private helper nothing refers to any more (its text was spliced into its caller): not part of the program"""
+        return m_.name.startswith("_") and not m_.name.startswith("__") and not callers_index(prog).get(m_.qual) \
+            and not any(isinstance(x, ast.Attribute) and x.attr == m_.name for mm in cls.methods.values() if mm is not m_ for x in ast.walk(mm.node))
+
+    readers = [m for m in readers if not _dead_private(m)]
     ctx.ob("R-NONINT-spacing", f"{cls.qual} :: self.{attr} is read only by the list renderer", bool(readers) and all(m is lm or m.qual in own for m in readers),
            f"the list-spacing mode may be consulted only where list tightness is decided; read in {sorted({m.name for m in readers})}",
            where(cls, cls.node))
@@ -1222,7 +1230,7 @@ def check_list_spacing_confinement(ctx: Ctx) -> None:
         if isinstance(n.ast, (ast.Assign,)) and isinstance(n.ast.targets[0], ast.Attribute):
             self_stores.append(n.ast.targets[0].attr)
             tight_attr = n.ast.targets[0].attr
-    dependents = [n for n in dependents if not _is_log_call(n.ast)]
+    dependents = [n for n in dependents if not _is_log_call(n.ast) and not isinstance(n.ast, (ast.Break, ast.Continue, ast.Pass))]  # (jumps store nothing)
     nonlocal_dep = [n for n in dependents if not (isinstance(n.ast, ast.Assign) and (isinstance(n.ast.targets[0], ast.Name) or
                     (isinstance(n.ast.targets[0], ast.Attribute) and n.ast.targets[0].attr == tight_attr)))]
     ctx.ob("R-NONINT-spacing", f"{lm.qual} :: the mode flows only into the tightness flag", tight_attr is not None and not nonlocal_dep and len(set(self_stores)) == 1,
@@ -1247,6 +1255,11 @@ def check_list_spacing_confinement(ctx: Ctx) -> None:
             continue  # old_tight = self._current_list_tight
         if m.name == "__init__":
             continue
+        if m.qual in own and n.kind == "stmt" and isinstance(n.ast, ast.Assign) and isinstance(n.ast.targets[0], ast.Name):
+            continue  # the same save, in a helper only the list renderer uses
+        if m.name.startswith("_") and not m.name.startswith("__") and not callers_index(prog).get(m.qual) \
+                and not any(isinstance(x, ast.Attribute) and x.attr == m.name for mm in cls.methods.values() if mm is not m for x in ast.walk(mm.node)):
+            continue  # a private helper nothing refers to any more (its text was spliced into its caller): not part of the program
         ok = False
     ctx.ob("R-NONINT-spacing", f"{cls.qual} :: self.{tight_attr} is read only by the item separator", ok and bool(reads),
            f"reads of the tightness flag: {[(m.name, n.text()[:40]) for m, n in reads]}", where(cls, cls.node))
